@@ -1284,7 +1284,16 @@ macro_rules! c13_case {
         // settle_interpolate: fixed point, equals the state reached by feeding x for ever;
         // `c` has just processed an arbitrary history: settling from there must give the same state as from new()
         let mut a = if li > 0 && held.len() % r == 0 { c.clone() } else { Cic::<$t, NN>::new(rate) };
-        if guard(|| a.settle_interpolate(x0)).is_some() {
+        let settled = guard(|| a.settle_interpolate(x0)).is_some();
+        if !settled {
+            // feeding x0 for ever from new() must overflow too, otherwise the settled state exists and fits
+            let mut b = Cic::<$t, NN>::new(rate);
+            let fine = (0..(NN + 2) * r).all(|t| guard(|| b.interpolate(if t % r == 0 { Some(x0) } else { None })).is_some());
+            if fine {
+                rep.violation("cic-settle", "settle_interpolate(x) must not panic when the settled state fits (feeding x reaches it without overflow)", &format!("Cic::<i{}, {}>::new({}).settle_interpolate({})", $w, NN, rate, x0), &format!("{:?}", b.verif_raw()), "PANIC");
+            }
+        }
+        if settled {
             let before = a.verif_raw();
             let mut ok = true;
             for t in 0..r {
@@ -2288,6 +2297,19 @@ fn c15(rng: &mut Rng, thorough: bool, _hints: &[Vec<String>], rep: &mut Report) 
             let mut y = vec![0f32; 128];
             y[..64].copy_from_slice(&x[..64]);
             let yi = it.process_block(None, &mut y).to_vec();
+            // the same blocks with a SEPARATE input slice must give the same items (decimator and interpolator)
+            {
+                let mut it2 = HbfInt::<f32, M, N>::new(taps);
+                let mut y2 = vec![0f32; 128];
+                let yi2 = it2.process_block(Some(&x[..64]), &mut y2).to_vec();
+                let mut d2 = HbfDec::<f32, M, N>::new(taps);
+                let mut yd2 = vec![0f32; 64];
+                let yd2 = d2.process_block(Some(&x), &mut yd2).to_vec();
+                if yi2.iter().map(|v| v.to_bits()).ne(yi.iter().map(|v| v.to_bits())) || yd2.iter().map(|v| v.to_bits()).ne(yd.iter().map(|v| v.to_bits())) {
+                    let k = (0..yi.len()).find(|k| yi[*k].to_bits() != yi2[*k].to_bits());
+                    rep.violation("hbf-fir", "stage output = symmetric FIR, identical for in-place and separate-buffer processing", &format!("Hbf stage <f32, {}, {}> process_block(Some(x), y) vs in place, stream style of 128 samples, first differing interpolator output {:?}", M, N, k), "bit-identical", "different");
+                }
+            }
             let mut stuffed = vec![0f64; 128];
             for i in 0..64 { stuffed[2 * i] = x[i] as f64; }
             for (m, v) in yi.iter().enumerate() {
@@ -2712,6 +2734,36 @@ fn c08(rng: &mut Rng, thorough: bool, _hints: &[Vec<String>], rep: &mut Report) 
         }
         rep.distinct += 1;
     }
+    // `Pid::build` (and `BiquadRepr::Pid`) is `PidBuilder` fed with b_scale-scaled, P-signed gains AND limits
+    {
+        use idsp::iir::Pid;
+        let m = if thorough { 50_000 } else { 5_000 };
+        for i in 0..m {
+            let dec = |rng: &mut Rng| -> f64 { 10f64.powi(rng.range(-4, 3) as i32) * (1.0 + rng.below(900) as f64 / 100.0) };
+            let period = 10f64.powi(rng.range(-3, 0) as i32) * (1.0 + rng.below(9) as f64);
+            let b_scale = if i % 4 == 0 { 1.0 } else { dec(rng) };
+            let y_scale = dec(rng);
+            let order = [Order::P, Order::I, Order::I2][rng.below(3) as usize];
+            let mut pid = Pid::<f64>::default();
+            *pid.order = order;
+            let p = dec(rng) * if rng.chance(1, 4) { -1.0 } else { 1.0 };
+            let mut bld = PidBuilder::<f64>::default();
+            bld.period(period).order(order);
+            for j in 0..5 {
+                let g = if j == 2 { p } else if rng.chance(1, 2) { dec(rng) } else { 0.0 };
+                let l = if rng.chance(1, 2) { f64::INFINITY } else { dec(rng) * 10.0 };
+                *pid.gain.value[j] = g;
+                *pid.limit.value[j] = l;
+                bld.gain(acts[j], b_scale * g.copysign(p)).limit(acts[j], b_scale * l.copysign(p));
+            }
+            let want: [f64; 5] = bld.build();
+            let got = *pid.build::<f64, f64>(period, b_scale, y_scale).ba();
+            if want.iter().all(|v| v.is_finite()) && got.iter().zip(want.iter()).any(|(a, b)| a.to_bits() != b.to_bits()) {
+                rep.violation("pid-repr", "Pid::build realises the requested gains and gain limits in machine units (b_scale applies to gains and limits alike)", &format!("Pid order={:?} gains={:?} limits={:?} .build(period={}, b_scale={}, y_scale={})", order, pid.gain.value.map(|v| *v), pid.limit.value.map(|v| *v), period, b_scale, y_scale), &format!("{:?}", want), &format!("{:?}", got));
+            }
+            rep.count("pid-repr", 1);
+        }
+    }
     // "quantise the normalised gains, then expand with integer derivative kernels": for fixed-point coefficients the
     // three individually quantised gains / normalised limits are recovered EXACTLY from the built coefficients
     // (g2 = b2, g1 = -(b1 + 2 b2), g0 = b0 + b1 + b2; likewise for the feedback side with a0 = ONE implied) and
@@ -2930,6 +2982,36 @@ fn c09(rng: &mut Rng, thorough: bool, _hints: &[Vec<String>], rep: &mut Report) 
                     rep.violation("coeff-quantize", "BiquadRepr::Ba divides by a0 and rounds like Biquad::from (invariant under a common factor)", &format!("{} as BiquadRepr::Ba (a0 = {})", inp, a0), &format!("{:?}", bi.ba()), &format!("{:?}", via.map(|b| *b.ba())));
                 }
                 rep.count("coeff-quantize-repr", 1);
+            }
+            // BiquadRepr::Filter (gains in dB, absolute frequency, any builder intermediate type I) is the same filter
+            // as Filter + Biquad::from: same arithmetic, so bit for bit
+            if i % 8 == 1 {
+                use idsp::iir::{BiquadRepr, FilterRepr, Typ};
+                let typs = [Typ::Lowpass, Typ::Highpass, Typ::Bandpass, Typ::Allpass, Typ::Notch, Typ::Peaking, Typ::Lowshelf, Typ::Highshelf, Typ::IHo];
+                let (gdb, sdb) = (rng.range(-300, 300) as f64 / 10.0, rng.range(-200, 200) as f64 / 10.0);
+                let period = 1.0 / (1u64 << rng.below(20)) as f64;
+                let freq = f0 / period;
+                let mut fr = FilterRepr::<f64>::default();
+                crate::gen::set_leaf(&mut fr, "/typ", typs[typ as usize]);
+                crate::gen::set_leaf(&mut fr, "/frequency", freq);
+                crate::gen::set_leaf(&mut fr, "/gain", gdb);
+                crate::gen::set_leaf(&mut fr, "/shelf", sdb);
+                crate::gen::set_leaf(&mut fr, "/shape", shape);
+                let mut fd = idsp::iir::Filter::<f64>::default();
+                fd.gain_db(gdb).critical_frequency(freq * period).shelf_db(sdb).set_shape(shape);
+                let bad = crate::gen::coeff_build(&fd, typ);
+                if bad.iter().flatten().all(|v| v.is_finite()) && (bad[0].iter().chain(bad[1][1..].iter())).all(|v| (v / bad[1][0]).abs() < 1.99) {
+                    let want64 = *idsp::iir::Biquad::<i64>::from(&bad).ba();
+                    let want32 = *idsp::iir::Biquad::<i32>::from(&bad).ba();
+                    let r = BiquadRepr::<f64, i64>::Filter(fr.clone());
+                    let g1 = guard(|| *r.build::<f32>(period, 1.0, 1.0).ba());
+                    let g2 = guard(|| *r.build::<f64>(period, 1.0, 1.0).ba());
+                    let g3 = guard(|| *BiquadRepr::<f64, i32>::Filter(fr.clone()).build::<f32>(period, 1.0, 1.0).ba());
+                    if g1 != Some(want64) || g2 != Some(want64) || g3 != Some(want32) {
+                        rep.violation("coeff-repr-filter", "BiquadRepr::Filter builds the same coefficients as Filter + Biquad::from, for every builder intermediate type", &format!("FilterRepr typ={} f0={} (frequency {} x period {}) shape={:?} gain {} dB shelf {} dB", names[typ as usize], f0, freq, period, shape, gdb, sdb), &format!("{:?} / {:?}", want64, want32), &format!("I=f32: {:?}, I=f64: {:?}, i32/I=f32: {:?}", g1, g2, g3));
+                    }
+                    rep.count("coeff-repr-filter", 3);
+                }
             }
         }
         rep.distinct += 1;
